@@ -70,6 +70,11 @@ def _gen_ops(r, scen, mc, nshared, n_ops):
             name = r.choice(["scale", "to_affine", "x", "y", "xy", "mul",
                              "mul_add", "eq", "add", "double", "neg", "pickle",
                              "mul_add_other"])
+        elif scen == "signers":
+            # several threads signing (and verifying) with ONE key, often the
+            # same message, often the same operation twice in a row
+            name = r.choice(["sign_det", "sign_det", "sign_det", "sign_k",
+                             "verify", "to_string"])
         elif scen == "keys2":
             # the everyday multi-threaded use: several keys on one curve
             # (one shared generator), each thread verifying / signing
@@ -100,6 +105,9 @@ def _gen_ops(r, scen, mc, nshared, n_ops):
             op["enc"] = r.choice(["raw", "uncompressed", "hybrid"] +
                                  (["compressed"] if mc.plen > 1 else []))
         ops.append(op)
+        if r.random() < (0.4 if scen == "signers" else 0.15) \
+                and name != "precompute":
+            ops.append(dict(op))    # the same operation once more
     return ops
 
 
@@ -108,7 +116,8 @@ def generate(run_seed, tier):
     toy = r.random() < 0.93
     cname = r.choice(TOYS if toy else NAMED)
     mc = mcurves.by_name(cname)
-    scen = r.choice(["gen", "gen", "point", "point", "key", "key", "keys2"])
+    scen = r.choice(["gen", "gen", "point", "point", "key", "key", "keys2",
+                     "signers"])
     shared = []
     if scen == "gen":
         shared.append(dict(kind="gen"))
@@ -128,6 +137,7 @@ def generate(run_seed, tier):
         # one key, sometimes two (they share the curve's generator and its
         # lazily built table), sometimes a bare point next to them
         for _ in range(r.choice([1, 1, 2]) if scen == "key"
+                       else 1 if scen == "signers"
                        else r.choice([2, 2, 3])):
             shared.append(dict(kind="key", d=libx.key_scalar(r, mc.n),
                                unscaled=r.random() < 0.6,
@@ -148,6 +158,8 @@ def generate(run_seed, tier):
                     op["s"] = ti % len(shared)
     gran = r.choice(["attr", "attr", "line", "line", "attr+line",
                      "line_all"])
+    if scen == "signers" and r.random() < 0.6:
+        gran = "attr"
     rs = core.rng(run_seed, "sched")
     kind = rs.choice(["random", "pct", "park", "park", "park"])
     cfg = dict(kind=kind, seed=rs.getrandbits(48))
